@@ -8,6 +8,7 @@ CONSTANTS
   LookupKinds = {"ttn", "tn", "esn"}
   FileBase = 3
   RecordHist = TRUE
+  Faults = {"ok"}
   DumpKinds = {"C", "P", "B"}
 INVARIANT TypeOK
 INVARIANT FilesWellFormed
@@ -23,5 +24,7 @@ INVARIANT ModulesSorted
 INVARIANT CacheCoherent
 INVARIANT LookupSeesAll
 INVARIANT Lazy
+INVARIANT ErrIffFault
+INVARIANT FailedNotLoaded
 CONSTRAINT DumpConstraint
 CHECK_DEADLOCK FALSE
